@@ -51,6 +51,7 @@ CONSTRAINTS = {
     "c1": dict(kind="simple", name=0, value=2.0, unc=0.5),
     "c2": dict(kind="matrix", values=(2.0, 0.7), cov=((0.25, 0.05), (0.05, 0.16))),
     "c3": dict(kind="simple", name=1, value=0.5, unc=0.1, relative=True),
+    "c4": dict(kind="matrix", values=(2.0, 0.7), cov=((0.04, 0.01), (0.01, 0.09)), relative=True),
 }
 
 
@@ -123,7 +124,7 @@ def add_constraint(fit, ftype, cname):
     names = PARAMS[ftype]
     if c["kind"] == "simple":
         return fit.add_parameter_constraint(names[c["name"]], c["value"], c["unc"], relative=c.get("relative", False))
-    return fit.add_matrix_parameter_constraint(list(names), list(c["values"]), np.array(c["cov"]))
+    return fit.add_matrix_parameter_constraint(list(names)[:len(c["values"])], list(c["values"]), np.array(c["cov"]), relative=c.get("relative", False))
 
 
 def apply_action(fit, ftype, a):
